@@ -3,11 +3,16 @@
 package layer2
 
 import (
-	"github.com/mdlayher/arp"
 	"fmt"
+	"io"
 	"net"
 	"sort"
 	"strings"
+	gosync "sync"
+
+	"github.com/mdlayher/arp"
+	"github.com/mdlayher/ndp"
+	"golang.org/x/net/ipv6"
 )
 
 // VerifSetInterfaces sets the local interface list (what interfaceScan would have found).
@@ -192,4 +197,194 @@ func (a *Announce) VerifTakeSpam(block bool) (IPAdvertisement, bool) {
 	default:
 		return IPAdvertisement{}, false
 	}
+}
+
+// ---- NDP responder over an in-memory connection -------------------------------------------------------------------
+// ndp.Conn is a concrete type over a raw ICMPv6 socket. With the R-call rewrite of ndp.go (n.conn.ReadFrom/WriteTo/
+// JoinGroup/LeaveGroup -> the functions below) a responder whose record is registered here reads frames the harness
+// queued - raw ICMPv6 bytes, parsed by the library's own ParseMessage exactly as Conn.ReadFrom does, parse errors
+// filtered as it does - and its writes are marshalled with the library's MarshalMessage and recorded. Responders that
+// are not registered (the ndp-groups part) keep using their real connection.
+
+type VerifNDPFrame struct {
+	Raw []byte
+	Src net.IP
+}
+
+type VerifNDPSent struct {
+	Raw []byte
+	Dst net.IP
+}
+
+type VerifNDPFake struct {
+	mu     gosync.Mutex
+	In     []VerifNDPFrame
+	Out    []VerifNDPSent
+	Joined map[string]bool
+	Errors []string // group operations the kernel would have refused
+}
+
+var (
+	verifNDPMu    gosync.Mutex
+	verifNDPFakes = map[*ndpResponder]*VerifNDPFake{}
+)
+
+func verifNDPFakeOf(n *ndpResponder) *VerifNDPFake {
+	verifNDPMu.Lock()
+	defer verifNDPMu.Unlock()
+	return verifNDPFakes[n]
+}
+
+func verifNDPReadFrom(n *ndpResponder) (ndp.Message, *ipv6.ControlMessage, net.IP, error) {
+	f := verifNDPFakeOf(n)
+	if f == nil {
+		return n.conn.ReadFrom()
+	}
+	for {
+		f.mu.Lock()
+		if len(f.In) == 0 {
+			f.mu.Unlock()
+			return nil, nil, nil, io.EOF
+		}
+		fr := f.In[0]
+		f.In = f.In[1:]
+		f.mu.Unlock()
+		m, err := ndp.ParseMessage(fr.Raw)
+		if err != nil {
+			continue // Conn.ReadFrom filters parse errors on the caller's behalf
+		}
+		return m, nil, fr.Src, nil
+	}
+}
+
+func verifNDPWriteTo(n *ndpResponder, m ndp.Message, cm *ipv6.ControlMessage, dst net.IP) error {
+	f := verifNDPFakeOf(n)
+	if f == nil {
+		return n.conn.WriteTo(m, cm, dst)
+	}
+	b, err := ndp.MarshalMessage(m)
+	if err != nil {
+		return err
+	}
+	f.mu.Lock()
+	f.Out = append(f.Out, VerifNDPSent{Raw: b, Dst: append(net.IP{}, dst...)})
+	f.mu.Unlock()
+	return nil
+}
+
+func verifNDPJoinGroup(n *ndpResponder, group net.IP) error {
+	f := verifNDPFakeOf(n)
+	if f == nil {
+		return n.conn.JoinGroup(group)
+	}
+	f.mu.Lock()
+	defer f.mu.Unlock()
+	if f.Joined[group.String()] {
+		f.Errors = append(f.Errors, "join of a group already joined: "+group.String())
+		return fmt.Errorf("address already in use")
+	}
+	f.Joined[group.String()] = true
+	return nil
+}
+
+func verifNDPLeaveGroup(n *ndpResponder, group net.IP) error {
+	f := verifNDPFakeOf(n)
+	if f == nil {
+		return n.conn.LeaveGroup(group)
+	}
+	f.mu.Lock()
+	defer f.mu.Unlock()
+	if !f.Joined[group.String()] {
+		f.Errors = append(f.Errors, "leave of a group not joined: "+group.String())
+		return fmt.Errorf("cannot assign requested address")
+	}
+	delete(f.Joined, group.String())
+	return nil
+}
+
+// VerifAddFakeNDPResponder installs a real ndpResponder (its run loop not started) over an in-memory connection under
+// interface index idx.
+func (a *Announce) VerifAddFakeNDPResponder(name string, mac net.HardwareAddr, idx int) *VerifNDPFake {
+	r := &ndpResponder{logger: a.logger, intf: name, hardwareAddr: mac, closed: make(chan struct{}), announce: a.shouldAnnounce,
+		solicitedNodeGroups: map[string]int64{}}
+	f := &VerifNDPFake{Joined: map[string]bool{}}
+	verifNDPMu.Lock()
+	verifNDPFakes[r] = f
+	verifNDPMu.Unlock()
+	a.Lock()
+	a.ndps[idx] = r
+	a.Unlock()
+	return f
+}
+
+// VerifForgetFakeNDP drops the registry entries of this announcer's fake responders (keeps the registry small).
+func (a *Announce) VerifForgetFakeNDP() {
+	a.RLock()
+	defer a.RUnlock()
+	verifNDPMu.Lock()
+	defer verifNDPMu.Unlock()
+	for _, r := range a.ndps {
+		delete(verifNDPFakes, r)
+	}
+}
+
+func (f *VerifNDPFake) Push(raw []byte, src net.IP) {
+	f.mu.Lock()
+	f.In = append(f.In, VerifNDPFrame{Raw: raw, Src: src})
+	f.mu.Unlock()
+}
+
+func (f *VerifNDPFake) TakeOut() []VerifNDPSent {
+	f.mu.Lock()
+	defer f.mu.Unlock()
+	out := f.Out
+	f.Out = nil
+	return out
+}
+
+func (f *VerifNDPFake) Pending() int {
+	f.mu.Lock()
+	defer f.mu.Unlock()
+	return len(f.In)
+}
+
+func (f *VerifNDPFake) Groups() []string {
+	f.mu.Lock()
+	defer f.mu.Unlock()
+	var gs []string
+	for g := range f.Joined {
+		gs = append(gs, g)
+	}
+	sort.Strings(gs)
+	return gs
+}
+
+func (f *VerifNDPFake) GroupErrors() []string {
+	f.mu.Lock()
+	defer f.mu.Unlock()
+	return append([]string{}, f.Errors...)
+}
+
+// VerifProcessNDP runs the real processRequest of the NDP responder under idx once.
+func (a *Announce) VerifProcessNDP(idx int) string {
+	a.RLock()
+	r := a.ndps[idx]
+	a.RUnlock()
+	switch r.processRequest() {
+	case dropReasonNone:
+		return "answered"
+	case dropReasonClosed:
+		return "closed"
+	case dropReasonError:
+		return "error"
+	case dropReasonMessageType:
+		return "not-a-solicitation"
+	case dropReasonNoSourceLL:
+		return "no-source-link-layer-address"
+	case dropReasonAnnounceIP:
+		return "not-held"
+	case dropReasonNotMatchInterface:
+		return "held-other-interface"
+	}
+	return "?"
 }
